@@ -96,7 +96,10 @@ func (i *ReceiverInterceptor) BindRemoteStream(
 			}
 			nlen, err := newPkt.MarshalTo(b)
 
-			return nlen, attr, err
+			// attr belongs to the packet that was just read and pushed, not to the
+			// older packet emitted here: it may hold the header an inner interceptor
+			// cached for that other packet, so the emitted packet gets attributes of its own.
+			return nlen, make(interceptor.Attributes), err
 		}
 
 		return n, attr, ErrPopWhileBuffering
